@@ -29,12 +29,13 @@ type probeItem struct {
 	ID      string            `json:"id"`
 	Body    string            `json:"body,omitempty"`
 	BodyB64 string            `json:"body_b64,omitempty"`
-	Method  string            `json:"http_method,omitempty"` // default POST
-	Path    string            `json:"path,omitempty"`        // default: the server's path
-	Headers map[string]string `json:"headers,omitempty"`     // value "-" removes a default header
-	Session string            `json:"session,omitempty"`     // "" own | "none" | "garbage"
-	SSE     bool              `json:"sse,omitempty"`         // Accept: also text/event-stream
-	RawHTTP string            `json:"raw_http,omitempty"`    // complete raw request bytes (overrides everything else)
+	Method  string            `json:"http_method,omitempty"`   // default POST
+	Path    string            `json:"path,omitempty"`          // default: the server's path
+	Headers map[string]string `json:"headers,omitempty"`       // value "-" removes a default header
+	Session string            `json:"session,omitempty"`       // "" own | "none" | "garbage"
+	SSE     bool              `json:"sse,omitempty"`           // Accept: also text/event-stream
+	RawHTTP string            `json:"raw_http,omitempty"`      // complete raw request bytes (overrides everything else)
+	Expect  bool              `json:"expect_answer,omitempty"` // on stream transports: wait longer for the first frame
 }
 
 type probeObs struct {
@@ -262,8 +263,8 @@ func (w *probeWorld) close() {
 		w.pw.Close()
 	}
 	if w.ts != nil {
-		w.ts.CloseClientConnections()
-		w.ts.Close()
+		closeClientConns(w.ts)
+		closeTS(w.ts)
 	}
 }
 
@@ -276,8 +277,11 @@ func bodyOf(it probeItem) []byte {
 }
 
 // stream-based transports: frames that appear after the send; wait until one appears (or settle) and a little longer
-func (w *probeWorld) newFrames(count func() []string, before int) []string {
+func (w *probeWorld) newFrames(count func() []string, before int, expect bool) []string {
 	deadline := time.Now().Add(w.settle)
+	if expect {
+		deadline = time.Now().Add(3 * time.Second)
+	}
 	for time.Now().Before(deadline) {
 		if len(count()) > before {
 			break
@@ -307,7 +311,7 @@ func (w *probeWorld) send(it probeItem) (o probeObs) {
 		}
 		before := len(lines())
 		w.pw.Write(append(append([]byte{}, body...), '\n'))
-		o.Frames = w.newFrames(lines, before)
+		o.Frames = w.newFrames(lines, before, it.Expect)
 		o.Status = -1
 		return
 	case "legacy":
@@ -340,7 +344,7 @@ func (w *probeWorld) send(it probeItem) (o probeObs) {
 			}
 		}
 		if r.Status == 202 {
-			o.Frames = append(o.Frames, w.newFrames(msgs, before)...)
+			o.Frames = append(o.Frames, w.newFrames(msgs, before, it.Expect)...)
 		}
 		return
 	}
@@ -459,7 +463,7 @@ func (w *probeWorld) ping(fresh bool) (bool, string) {
 	}
 	save := w.settle
 	w.settle = 1500 * time.Millisecond
-	o := w.send(probeItem{ID: "ping", Body: `{"jsonrpc":"2.0","id":"health","method":"ping"}`})
+	o := w.send(probeItem{ID: "ping", Body: `{"jsonrpc":"2.0","id":"health","method":"ping"}`, Expect: true})
 	w.settle = save
 	for _, f := range o.Frames {
 		if strings.Contains(f, `"health"`) && strings.Contains(f, `"result"`) {
@@ -492,8 +496,20 @@ func init() {
 			Obs    []probeObs  `json:"obs"`
 			Health probeHealth `json:"health"`
 		}{}
+		hangs := 0
 		for _, it := range in.Items {
-			out.Obs = append(out.Obs, w.send(it))
+			if hangs >= 3 {
+				// the server has stopped answering: do not spend the whole bound on every remaining item
+				out.Obs = append(out.Obs, probeObs{ID: it.ID, Frames: []string{}, Err: "skipped after repeated timeouts: context deadline exceeded"})
+				continue
+			}
+			o := w.send(it)
+			if strings.Contains(o.Err, "deadline exceeded") || strings.Contains(o.Err, "Timeout") {
+				hangs++
+			} else {
+				hangs = 0
+			}
+			out.Obs = append(out.Obs, o)
 		}
 		ok1, n1 := w.ping(false)
 		ok2, n2 := w.ping(true)
